@@ -76,6 +76,8 @@ HOF = {
     "std::iter::Iterator::take_while": (1, {2: ("elem", 0)}),
     "std::iter::Iterator::skip_while": (1, {2: ("elem", 0)}),
     "std::iter::Iterator::try_for_each": (1, {2: ("elem", 0)}),
+    "std::vec::Vec::retain": (1, {2: ("elem", 0)}),
+    "std::collections::VecDeque::retain": (1, {2: ("elem", 0)}),
     "std::iter::Iterator::fold": (2, {2: ("acc", 1), 3: ("elem", 0)}),
     "std::iter::Iterator::try_fold": (2, {2: ("acc", 1), 3: ("elem", 0)}),
     "std::option::Option::map": (1, {2: ("some", 0)}),
